@@ -107,6 +107,10 @@ def mk_groups(groups):
     for g in groups:
         cls = LabelMergeGroup if g["merge"] else LabelGroup
         d[g["name"]] = cls(list(g["labels"]), single_instance=g["single"])
+    if groups and groups[0].get("as_list"):
+        # groups given as a list: the library names them group_0, group_1, ... (the spec carries exactly these names)
+        assert [g["name"] for g in groups] == [f"group_{k}" for k in range(len(groups))]
+        return SegmentationClassGroups(list(d.values()))
     return SegmentationClassGroups(d)
 
 
